@@ -194,14 +194,38 @@ func H_C16_Match() {
 		nl.Nodes = append(nl.Nodes, c16nodeH("l", true, rt.Bound("LH", 1, 2), 2))
 	}
 	probe := c16nodeH("p", true, 2, 2)
+	c16matchRule(nl, probe, "C16.match")
+}
+
+// H_C16_Match3: three list nodes with at most one hash each (one algorithm, symbolic values) and optional purls, a
+// probe with a hash and an optional purl: the tie-break cases (several hash matches and a purl held by a node inside
+// or outside them) that need three nodes.
+func H_C16_Match3() {
+	mk := func(p string) *sbom.Node {
+		n := &sbom.Node{Id: rt.NondetString(p + "id")}
+		if rt.NondetChoice(p+"haspurl", 2) == 1 {
+			n.Identifiers = map[int32]string{purlKey: rt.NondetString(p + "purl")}
+		}
+		if rt.NondetChoice(p+"hashash", 2) == 1 {
+			v := rt.NondetString(p + "hash")
+			rt.Assume(v != "")
+			n.Hashes = map[int32]string{c16algos[0]: v}
+		}
+		return n
+	}
+	nl := &sbom.NodeList{Nodes: []*sbom.Node{mk("l"), mk("l"), mk("l")}}
+	c16matchRule(nl, mk("p"), "C16.match3")
+}
+
+func c16matchRule(nl *sbom.NodeList, probe *sbom.Node, site string) {
 	rt.MapOrderAll(true)
 	got, err := nl.GetMatchingNode(probe)
 	n := len(nl.Nodes)
 	if got != nil && indexOfPtr(nl, got) < 0 {
-		rt.Assert(false, "C16.match.inlist")
+		rt.Assert(false, site+".inlist")
 		return
 	}
-	rt.Assert(rt.Not(rt.And(got != nil, err != nil)), "C16.match.notboth")
+	rt.Assert(rt.Not(rt.And(got != nil, err != nil)), site+".notboth")
 	hm := make([]bool, n)
 	pm := make([]bool, n)
 	pp := purlOf(probe)
@@ -248,5 +272,5 @@ func H_C16_Match() {
 	rule = rt.And(rule, rt.Implies(rt.And(none(hm), none(pm)), noMatch))
 	rule = rt.And(rule, rt.Implies(rt.And(none(hm), rt.Not(none(pm)), rt.Not(onePurl)), ambiguous))
 	rule = rt.And(rule, rt.Implies(rt.And(rt.Not(none(hm)), rt.Not(oneHash), rt.Not(oneBoth)), ambiguous))
-	rt.Assert(rule, "C16.match.rule")
+	rt.Assert(rule, site+".rule")
 }
